@@ -49,11 +49,21 @@ func (r *funcRun) entryState() *State {
 		r.collectInputs(v)
 		r.seedValue(st, p)
 	}
+	var fvs []Term
 	for _, p := range r.fn.FreeVars {
 		v := r.v.freshValue(st, "fv_"+p.Name(), p.Type())
 		st.regs[p.Name()] = v
 		r.params[p.Name()] = v
 		r.ptypes[p.Name()] = p.Type()
+		// a captured variable is a live heap cell (Go closure semantics): never nil, already allocated,
+		// and distinct from every other captured variable
+		if t, ok := v.(Term); ok && t.Sort == SInt {
+			st.assume(And(Lt(IntLit(0), t), Le(t, st.alloc)))
+			for _, q := range fvs {
+				st.assume(Not(Eq(t, q)))
+			}
+			fvs = append(fvs, t)
+		}
 	}
 	// lets, requires, assumes
 	r.old = st.snap()
